@@ -8,6 +8,13 @@ def hook_commits():
     return [l.split()[0] for l in out.splitlines() if "verif hook" in l]
 
 CLAIMED = {
+ "C01": dict(
+   level="exploration",
+   text="Seeded search over honest histories (fresh / after a reorganisation, 2..10/25 blocks) x a 15-entry catalogue of hostile transaction edits x entry path (pool, block as next tip, block on a side fork that becomes the longer candidate) x transaction position. Oracles: hostile tx absent from the pool, hostile block never on the longest chain, and an independent scan of the node's longest chain against the reference ledger (every value-carrying input spendable at that point and owned by the signer). The honest twin must be accepted or the run does not count.",
+   design="§6 C01",
+   note="Trusted: reference ledger, edit catalogue, universe builder. Genesis period >> depth here (expired inputs: C13); staking off.",
+   technique="deterministic simulation: seeded history x adversarial-edit injection through pool and block paths, reference-ledger oracle"),
+
  "C03": dict(
    level="exploration",
    text="Seeded search over block trees x delivery orders (all parent vectors of <=4 (quick) / <=5 (thorough) non-genesis blocks x all delivery permutations enumerated first, then random trees up to 15/30 blocks with duplicates, invalid tips and rare orphan-first orders) through the real Blockchain::add_block; after every delivery the spendable set, by-height index, on-chain flags and tip are compared with an independent replay of the reported chain. Sampling beyond the enumerated prefix: evidence, not proof.",
